@@ -1,1 +1,120 @@
-(* stub: to be written *)
+(* C04 — symbolic-shape exports are correct for every binding of the symbols.
+   Only statements here; model and proofs live in theories/DimExpr.v.
+
+   Objects: `expr` = JAX _DimExpr as stored (_sorted_terms / _factors / operation+operands),
+   `denote rho e` = JAX's integer value of e under the binding rho (floor //, % with the divisor's sign),
+   `lower cfg og e` = Gallina image of LowerDimExpr._lower_expr INCLUDING its cache keyed by printed
+   forms; `dim_as_value cfg og e` = DimAsValuePlugin.lower (origin / constant / lowerer);
+   `cfg_current` = the code as it stands, `cfg_fixed` = namespaced cache keys + floor-division lowering;
+   `val64` evaluates the emitted int64 graph with two's-complement wrap-around. *)
+From Coq Require Import ZArith List String.
+From J2O Require Import DimExpr.
+Import ListNotations.
+Open Scope Z_scope.
+
+(* THE PROPERTY (full strength), as a statement about a configuration of the lowering:
+     forall e rho shapes og st v st',
+       (forall s, 1 <= rho s) -> origins_ok og rho shapes -> cache_ok_all cfg rho shapes st ->
+       defined rho e -> lower cfg og e st = Some (v, st') -> no_int64_overflow shapes st' ->
+       val64 shapes st' v = denote rho e /\ cache_ok_all cfg rho shapes st' /\ ext st st'          *)
+
+(* ---- it is FALSE of the code as it stands (two independent defects) *)
+Theorem C04_lower_correct_refuted : ~ lower_correct_stmt cfg_current.
+Proof. exact lower_correct_refuted. Qed.
+Print Assumptions C04_lower_correct_refuted.
+
+Theorem C04_lower_correct_refuted_floordiv : ~ lower_correct_stmt cfg_current.
+Proof. exact lower_correct_refuted_floordiv. Qed.
+Print Assumptions C04_lower_correct_refuted_floordiv.
+
+(* repairing only one of the two defects leaves the property false *)
+Theorem C04_keys_defect_alone : ~ lower_correct_stmt {| ns_keys := false; floor_div := true |}.
+Proof. exact keys_defect_alone. Qed.
+Print Assumptions C04_keys_defect_alone.
+
+Theorem C04_floordiv_defect_alone : ~ lower_correct_stmt {| ns_keys := true; floor_div := false |}.
+Proof. exact floordiv_defect_alone. Qed.
+Print Assumptions C04_floordiv_defect_alone.
+
+(* the colliding cache keys: str((b, 2)) of the factor b^2 and of the term 2*b *)
+Theorem C04_key_collision :
+  ckey cfg_current (CFp var_b 2) = ckey cfg_current (CTc [(var_b, 1%positive)] 2)
+  /\ cdenote (fun _ => 3) (CFp var_b 2) <> cdenote (fun _ => 3) (CTc [(var_b, 1%positive)] 2).
+Proof. exact key_collision_witness. Qed.
+Print Assumptions C04_key_collision.
+
+(* ---- the code as it stands is correct under exactly two extra hypotheses *)
+Theorem C04_lower_correct_partial : forall e rho shapes og v st',
+  (forall s, 1 <= rho s) -> origins_ok og rho shapes ->
+  keys_okb (subnodes e) = true ->
+  trunc_safe rho e ->
+  lower cfg_current og e st0 = Some (v, st') -> no_int64_overflow shapes st' ->
+  val64 shapes st' v = denote rho e.
+Proof. exact lower_correct_partial. Qed.
+Print Assumptions C04_lower_correct_partial.
+
+(* general form of the same: any configuration, any initial cache, relative to a set U of cache
+   nodes on which the keys are injective and which contains the sub-nodes of e *)
+Theorem C04_lower_correct_gen : forall cfg e rho shapes og U st v st',
+  origins_ok og rho shapes -> key_inj cfg rho U -> (forall n, In n (subnodes e) -> U n) ->
+  cache_ok cfg rho shapes U st -> forallb (op_okb cfg rho) (subnodes e) = true ->
+  lower cfg og e st = Some (v, st') -> no_int64_overflow shapes st' ->
+  val64 shapes st' v = denote rho e /\ cache_ok cfg rho shapes U st' /\ ext st st'.
+Proof. exact lower_correct_gen. Qed.
+Print Assumptions C04_lower_correct_gen.
+
+(* when does truncating division (ONNX Div on int64) equal floor division (JAX)? *)
+Theorem C04_trunc_is_floor_iff : forall a b, b <> 0 ->
+  (Z.quot a b = a / b <-> (a mod b = 0 \/ 0 < a * b)).
+Proof. exact quot_eq_div_iff. Qed.
+Print Assumptions C04_trunc_is_floor_iff.
+
+(* the repaired floordiv: Div(Sub(a, Mod(a, b)), b) with ONNX integer Mod (fmod=0, sign of divisor) *)
+Theorem C04_floor_via_mod : forall a b, b <> 0 -> Z.quot (a - a mod b) b = a / b.
+Proof. exact floor_via_mod. Qed.
+Print Assumptions C04_floor_via_mod.
+
+(* ---- the FIXED lowering satisfies the full property *)
+Theorem C04_lower_fixed_correct : lower_correct_stmt cfg_fixed.
+Proof. exact lower_fixed_correct. Qed.
+Print Assumptions C04_lower_fixed_correct.
+
+(* it rests on: namespaced printed keys identify the cache node (printing is injective) *)
+Theorem C04_fixed_key_injective : forall n1 n2, ckey cfg_fixed n1 = ckey cfg_fixed n2 -> n1 = n2.
+Proof. exact fixed_key_inj. Qed.
+Print Assumptions C04_fixed_key_injective.
+
+Theorem C04_print_expr_injective : forall e1 e2, print_expr e1 = print_expr e2 -> e1 = e2.
+Proof. exact print_expr_injective. Qed.
+Print Assumptions C04_print_expr_injective.
+
+(* DimAsValuePlugin (origin -> Shape/Gather; constant; lowerer), fixed configuration *)
+Theorem C04_dim_as_value_fixed_correct : forall e rho shapes og st v st',
+  (forall s, 1 <= rho s) -> origins_ok og rho shapes -> cache_ok_all cfg_fixed rho shapes st ->
+  defined rho e -> dim_as_value cfg_fixed og e st = Some (v, st') -> no_int64_overflow shapes st' ->
+  val64 shapes st' v = denote rho e /\ cache_ok_all cfg_fixed rho shapes st' /\ ext st st'.
+Proof. exact dim_as_value_fixed_correct. Qed.
+Print Assumptions C04_dim_as_value_fixed_correct.
+
+(* several expressions through one lowerer (LowerDimExpr.__call__, shared cache) *)
+Theorem C04_lower_many_fixed_correct : forall es rho shapes og st vs st',
+  origins_ok og rho shapes -> cache_ok_all cfg_fixed rho shapes st ->
+  Forall (defined rho) es -> lower_many cfg_fixed og es st = Some (vs, st') -> no_int64_overflow shapes st' ->
+  map (val64 shapes st') vs = map (denote rho) es /\ cache_ok_all cfg_fixed rho shapes st' /\ ext st st'.
+Proof. exact lower_many_fixed_correct. Qed.
+Print Assumptions C04_lower_many_fixed_correct.
+
+(* wrap-around evaluation = ideal evaluation when no emitted node overflows int64 *)
+Theorem C04_no_overflow_ideal : forall shapes ns, Forall in64 (vals shapes ns) -> vals64 shapes ns = vals shapes ns.
+Proof. exact vals64_eq. Qed.
+Print Assumptions C04_no_overflow_ideal.
+
+(* non-vacuity: the partial theorem's hypotheses hold for the floordiv witness at b = 7, the
+   collision test fires on b*b + 2*b and not on (b-5)//2+10 *)
+Theorem C04_nonvacuous :
+  key_collision wit_keys = true /\ keys_okb (subnodes wit_floordiv) = true
+  /\ trunc_safe (fun _ => 7) wit_floordiv /\ defined (fun _ => 2) wit_floordiv
+  /\ run_at cfg_current wit_keys 3 = Some (18, 15) /\ run_at cfg_fixed wit_keys 3 = Some (15, 15)
+  /\ run_at cfg_current wit_floordiv 2 = Some (9, 8) /\ run_at cfg_fixed wit_floordiv 2 = Some (8, 8).
+Proof. repeat split; reflexivity. Qed.
+Print Assumptions C04_nonvacuous.
